@@ -490,3 +490,64 @@ Definition witness_kill : list hstep :=
 Lemma only_approved_kill_refuted_witness :
   forallb (mon_only_approved_k id_digest) (run_k id_digest (mkVariant true) true empty_cache [] witness_kill) = false.
 Proof. vm_compute. reflexivity. Qed.
+
+(* ---------- the cached bytes are guarded by the approval ---------- *)
+
+Section Guarded.
+Variable digest : N -> N.
+
+Lemma cache_consistent_Inv : forall st, cache_consistent digest st = true <-> Inv digest st.
+Proof.
+  intros st. unfold cache_consistent, Inv. split.
+  - intros H c Hc. rewrite Hc in H. now apply opt_eqb_eq in H.
+  - intros H. destruct (c_content st) as [c|]; [|reflexivity].
+    rewrite (H c eq_refl). apply opt_eqb_refl.
+Qed.
+
+Lemma step_content_guarded :
+  forall V http st s i, mon_content_guarded digest (step_obs digest V http st s i) = true.
+Proof.
+  intros V http st s i. unfold mon_content_guarded, step_obs.
+  cbn [o_pre o_post o_inv o_srv].
+  destruct (invoke digest V http st s i) as [o st'] eqn:E. cbn [fst snd].
+  apply andb_true_iff. split.
+  - apply invoke_cases in E as [[c [_ [Hs|[Hcl Hs]]]]|[[v [_ [Hs _]]]|[v [_ [Hr [Hs Ha]]]]]]; subst st'.
+    + now rewrite opt_eqb_refl.
+    + rewrite Hcl, cache_eqb_refl. cbn. now rewrite orb_true_r.
+    + now rewrite opt_eqb_refl.
+    + unfold served. rewrite Hr. cbn [c_content c_sum]. rewrite !opt_eqb_refl. cbn [andb].
+      destruct Ha as [Ha|Ha].
+      * rewrite Ha. cbn. now rewrite orb_true_r.
+      * rewrite Ha, opt_eqb_refl. now rewrite !orb_true_r.
+  - destruct (cache_consistent digest st) eqn:Ec; [|reflexivity]. cbn [negb orb].
+    apply cache_consistent_Inv. apply cache_consistent_Inv in Ec.
+    pose proof (invoke_preserves_Inv digest V http st s i Ec) as H. now rewrite E in H.
+Qed.
+
+(* what ran was approved, judged against the approvals the user gave (inputs only) *)
+Lemma approvals_after_app :
+  forall h A s i,
+    approvals_after digest A (h ++ [(s, i)]) = approvals_of digest s i ++ approvals_after digest A h.
+Proof.
+  induction h as [|[s0 i0] h IH]; intros A s i; cbn; [reflexivity|]. apply IH.
+Qed.
+
+Lemma final_KInv :
+  forall V http h st A,
+    KInv digest st A -> KInv digest (final digest V http st h) (approvals_after digest A h).
+Proof.
+  intros V http h. induction h as [|[s i] h IH]; intros st A HK; cbn; [exact HK|].
+  apply IH. now apply call_preserves_KInv.
+Qed.
+
+Lemma ran_was_approved :
+  forall V http h s i,
+    mon_ever_approved digest
+      (step_obs digest V http (final digest V http empty_cache h) s i,
+       approvals_after digest [] (h ++ [(s, i)])) = true.
+Proof.
+  intros V http h s i. rewrite approvals_after_app.
+  apply call_ever_approved. apply final_KInv. apply KInv_empty.
+Qed.
+
+End Guarded.
